@@ -4,15 +4,18 @@ package asm
 
 import (
 	"bytes"
+	"context"
 	"fmt"
 	"log"
 	"os"
+	"os/exec"
 	"path/filepath"
 	"regexp"
 	"runtime/debug"
 	"sort"
 	"strings"
 	"sync"
+	"time"
 
 	"github.com/HobbyOSs/gosk/internal/frontend"
 	"github.com/HobbyOSs/gosk/internal/gen"
@@ -261,4 +264,81 @@ func DiagClass(r, baseline *Result) string {
 		s = s[:70]
 	}
 	return s
+}
+
+// ---------------------------------------------------------------------------
+// subprocess runs of the real binary
+
+// CLIResult is what a user of the gosk command observes.
+type CLIResult struct {
+	Exit   int
+	Stdout string
+	Stderr string
+	Err    error // start failure / time-out (not an exit status)
+}
+
+// GoskPath returns the binary built by the driver (VERIF_GOSK).
+func GoskPath() string { return os.Getenv("VERIF_GOSK") }
+
+// RunCLI runs the gosk binary with args in dir (time-out 60 s).
+func RunCLI(dir string, args ...string) CLIResult {
+	var res CLIResult
+	path := GoskPath()
+	if path == "" {
+		res.Err = fmt.Errorf("VERIF_GOSK not set")
+		return res
+	}
+	ctx, cancel := context.WithTimeout(context.Background(), 60*time.Second)
+	defer cancel()
+	cmd := exec.CommandContext(ctx, path, args...)
+	cmd.Dir = dir
+	var so, se bytes.Buffer
+	cmd.Stdout, cmd.Stderr = &so, &se
+	err := cmd.Run()
+	res.Stdout, res.Stderr = so.String(), se.String()
+	if ee, ok := err.(*exec.ExitError); ok {
+		res.Exit = ee.ExitCode()
+		if ctx.Err() != nil {
+			res.Err = fmt.Errorf("time-out")
+		}
+	} else if err != nil {
+		res.Err = err
+	}
+	return res
+}
+
+var (
+	cliMu    sync.Mutex
+	cliCache = map[string][]byte{}
+	cliSeq   int
+)
+
+// FreshProcessBytes assembles src in a fresh process and returns the output
+// file's bytes (cached per source text). ok=false when the process failed.
+func FreshProcessBytes(src string) ([]byte, bool) {
+	cliMu.Lock()
+	if b, ok := cliCache[src]; ok {
+		cliMu.Unlock()
+		return b, b != nil
+	}
+	cliSeq++
+	n := cliSeq
+	cliMu.Unlock()
+	in := filepath.Join(TmpDir(), fmt.Sprintf("cli%d.nas", n))
+	out := filepath.Join(TmpDir(), fmt.Sprintf("cli%d.bin", n))
+	os.WriteFile(in, []byte(src), 0o644)
+	defer os.Remove(in)
+	defer os.Remove(out)
+	r := RunCLI(TmpDir(), in, out)
+	var b []byte
+	if r.Err == nil && r.Exit == 0 {
+		b, _ = os.ReadFile(out)
+		if b == nil {
+			b = []byte{}
+		}
+	}
+	cliMu.Lock()
+	cliCache[src] = b
+	cliMu.Unlock()
+	return b, b != nil
 }
